@@ -45,7 +45,7 @@ VARS = ["x", "y", "z", "acc", "item", "count", "name_1", "_tmp", "value", "i", "
 FUNS = ["foo", "bar", "compute_total", "helper", "go", "process_items"]
 METHS = ["len", "append", "get", "join", "trim", "or_throw", "contains"]
 TYPES = ["Int", "String", "Bool", "List<Int>", "Option<String>", "Result<Int, String>", "(Int, String)",
-         "List<(Int, String)>", "Unit", "T"]
+         "List<(Int, String)>", "Unit", "T", "Fun<(), Unit>", "Fun<(Int), String>", "()"]
 STRUCTS = ["Point", "Person", "Config"]
 VARIANTS = ["Some", "None", "Ok", "Err", "Red", "Green"]
 NONASCII = ["é", "日本", "ß", "→", "ñ", "😀"]
@@ -96,7 +96,7 @@ class Gen:
     # -- comments
     def comment_line(self, doc=False):
         words = ["note", "TODO: fix", "x = 1", "see \"docs\"", "a, b => c", "{ not code }", self.pick(NONASCII),
-                 "fun foo() {", "", "  indented text", "if (x) { y }"]
+                 "fun foo() {", "", "  indented text", "if (x) { y }", "args: not a footer"]
         pre = "///" if doc else "//"
         sp = self.pick([" ", " ", "", "  "])
         self.t("N", pre + sp + self.pick(words))
@@ -283,6 +283,29 @@ class Gen:
         r = self.rng.random()
         if self.budget < 0:
             r = 0.0
+        if self.ml and self.ml_rate > 0 and self.chance(0.12):
+            # a multi-line string literal whose continuation lines carry their own leading blanks, ending
+            # a statement, followed on the same line by a comment / on the next line by a comment line
+            # (the closing-quote line starts inside the token: nothing on it may be re-indented)
+            self.t("N", self.pick(["let", "return", None]))
+            if self.out[-1].text is None:
+                self.out.pop()
+                g = "N"
+            elif self.out[-1].text == "let":
+                self.t("S", self.pick(VARS))
+                self.t("O", "=")
+                g = "O"
+            else:
+                g = "S"
+            lines = [self.pick(["Usage:", "x", "", "first line"])]
+            for _ in range(self.rng.randint(1, 3)):
+                lines.append(self.pick(["", " ", "      ", "\t", "  ", "            "]) + self.pick(["garden run FILE", "y", "", "}", "z  "]))
+            self.t(g, '"' + "\n".join(lines) + '"')
+            if self.chance(0.7):
+                self.t("S", "// " + self.pick(["usage text", "after the closing quote", "é", "x = 1"]))
+            if self.chance(0.4):
+                self.comment_line()
+            return
         if r < 0.22:
             self.t("N", "let")
             if self.chance(0.15):
@@ -350,7 +373,8 @@ class Gen:
             self.block("O", d)
         else:
             self.expr("N", 3)
-        self.eol_comment()
+        last = self.out[-1].text if self.out else ""
+        self.eol_comment(0.5 if "\n" in last else 0.06)
 
     def cond(self):
         if self.chance(0.35):
